@@ -187,6 +187,9 @@ impl MaxCharsCommandSizeLimiter {
         // budget, and refuses any single string longer than 32 pages.
         const POINTER_SIZE: usize = std::mem::size_of::<*const u8>();
         const MAX_SINGLE_ARG: usize = 32 * 4096;
+        // The kernel also charges the file name it is asked to execute (the
+        // command as resolved through PATH, up to PATH_MAX bytes).
+        const FILE_NAME_MAX: usize = 4096;
         let env_size: usize = env
             .iter()
             .map(|(var, value)| {
@@ -196,7 +199,8 @@ impl MaxCharsCommandSizeLimiter {
 
         Self {
             // Leave room for the terminating NULL pointers of argv and envp.
-            max_chars: arg_max.saturating_sub(ARG_HEADROOM + env_size + 2 * POINTER_SIZE),
+            max_chars: arg_max
+                .saturating_sub(ARG_HEADROOM + FILE_NAME_MAX + env_size + 2 * POINTER_SIZE),
             per_arg_overhead: POINTER_SIZE,
             max_single_arg: MAX_SINGLE_ARG,
             current_size: 0,
